@@ -53,7 +53,10 @@ func (eval Evaluator[T]) Evaluate(input interface{}, p interface{}, targetScale 
 		return nil, fmt.Errorf("cannot evaluatePolyVector: invalid input, must be either *rlwe.Ciphertext or *PowerBasis")
 	}
 
-	if level, depth := powerbasis.Value[1].Level(), levelsConsumedPerRescaling*polyVec.Value[0].Depth(); level < depth {
+	// The evaluation consumes ceil(log2(degree+1)) rescalings: one per level of the power basis plus the final one
+	// (bits.Len64(degree), which is one more than Polynomial.Depth() when the degree is a power of two).
+	/* #nosec G115 -- Degree cannot be negative */
+	if level, depth := powerbasis.Value[1].Level(), levelsConsumedPerRescaling*bits.Len64(uint64(polyVec.Value[0].Degree())); level < depth {
 		return nil, fmt.Errorf("%d levels < %d log(d) -> cannot evaluate poly", level, depth)
 	}
 
